@@ -234,6 +234,12 @@ func invoke(tg *target, data []byte) result {
 		tg.run(data, &res.info)
 	}()
 	start := time.Now()
+	limit := watchdog
+	if inFuzzWorker() {
+		// the fuzz engine kills a worker whose exec takes 10 s ("deadlocked!"): fire before it, the isolated
+		// confirmation then applies the full 10 s
+		limit = 8 * time.Second
+	}
 	var cpu0 time.Duration
 	tick := time.NewTimer(50 * time.Millisecond)
 	defer tick.Stop()
@@ -250,7 +256,7 @@ func invoke(tg *target, data []byte) result {
 			el := time.Since(start)
 			// 10 s of wall time only counts when the process really ran for most of it (a starved process on a
 			// loaded machine is not a hang); a call blocked without using the CPU is given watchdogIdle.
-			if el > watchdog && (procCPU()-cpu0 > watchdog/2 || el > watchdogIdle) {
+			if el > limit && (procCPU()-cpu0 > limit/2 || el > watchdogIdle) {
 				why = fmt.Sprintf("no return after %v (process CPU %v)", el.Round(time.Millisecond), (procCPU() - cpu0).Round(time.Millisecond))
 			} else if h := heapBytes(); h > heapLimit {
 				why = fmt.Sprintf("live heap %d MiB after %v", h>>20, el.Round(time.Millisecond))
@@ -318,8 +324,9 @@ func onWatchdog(tg *target, data []byte, why string) {
 	fmt.Printf("C09 watchdog: target %s: %s on a %d-byte input (%s); re-running it in isolation\n", tg.name, why, len(data), f)
 	vstat.Flush()
 	if inFuzzWorker() {
-		// the fuzz coordinator records the input as a crasher; the wrapper confirms it afterwards
-		os.Exit(70)
+		// the wrapper finds the file written above and confirms it in isolation (exit code 70 is reserved by
+		// the fuzz engine for internal worker errors, so use another one)
+		os.Exit(3)
 	}
 	env := []string{}
 	for _, e := range os.Environ() {
